@@ -164,6 +164,20 @@ def gen_cases(tier, seed):
                           'end_when': 'done', 'chunk': 'all',
                           'stride': 1 if tier == 'thorough' else 3,
                           'cseed': 17})
+    # directed: drain() on a stream that is being fed by a redirection (it
+    # waits for the redirection to finish) when the connection goes away
+    for src in ('pipe', 'file'):
+        for acts in (['drain'], ['settle', 'drain'], ['drain', 'read']):
+            for ending in ('close_then_wait', 'abort', 'peer_close',
+                           'peer_disconnect', 'none'):
+                cases.append({'chans': [{'kind': 'process',
+                                         'srv': 'stall_hold', 'acts': acts,
+                                         'window': None, 'pause': False,
+                                         'stdin_redirect': src}],
+                              'ending': ending, 'concurrent': True,
+                              'end_when': 'settled', 'chunk': 'all',
+                              'stride': 1 if tier == 'thorough' else 4,
+                              'cseed': 18})
     for i in range(n):
         chans = []
         for _ in range(rng.choice([1, 1, 2, 2, 3, 4])):
@@ -224,6 +238,15 @@ class _TCPEcho(asyncssh.SSHTCPSession):
 
     def connection_lost(self, exc):
         self.order.append('connection_lost')
+
+
+class _TCPStall(_TCPEcho):
+    """A direct-tcpip peer behind a small window that stops reading with
+       the first data, then sends EOF and / or closes"""
+
+    def data_received(self, data, datatype):
+        self.order.append('data')
+        self.chan.pause_reading()
 
 
 class _InExecSession(apps.RecServerSession):
@@ -325,8 +348,26 @@ class _Srv(apps.RecServer):
 
     def connection_requested(self, dest_host, dest_port, orig_host,
                              orig_port):
-        s = _TCPEcho(self.ctx['log'], 'tcp')
-        self.ctx['tcpsessions'].append(s)
+        ctx = self.ctx
+        beh = ctx['next_tcp'].pop(0) if ctx.get('next_tcp') else 'echo'
+        if beh in ('stall_eof_close', 'stall_close') and \
+                ctx.get('tr') is not None:
+            s = _TCPStall(ctx['log'], 'tcp')
+            ctx['tcpsessions'].append(s)
+
+            async def later():
+                # once the client's writes have piled up, go away
+                await ctx['tr'].env.settle()
+                try:
+                    if beh == 'stall_eof_close':
+                        s.chan.write_eof()
+                    s.chan.close()
+                except (OSError, AttributeError):
+                    pass
+            ctx['tr'].call('srv_tcp', later())
+            return self.conn.create_tcp_channel(window=1024), s
+        s = _TCPEcho(ctx['log'], 'tcp')
+        ctx['tcpsessions'].append(s)
         return s
 
 
@@ -406,7 +447,12 @@ class Tracker:
             ch = self.chans.get(t)
             if not t.done() and ch is not None:
                 try:
-                    closing = ch.is_closing()
+                    # (is_closing() is already true after write_eof(); a
+                    # half-closed channel may legitimately be read from)
+                    st = getattr(ch, '_send_state', None)
+                    closing = ch.is_closing() if st is None else \
+                        st in ('close_pending', 'closed') or \
+                        getattr(ch, '_recv_state', '') == 'closed'
                 except Exception:
                     closing = False
                 if closing:
@@ -434,6 +480,8 @@ async def _client_channel(ctx, tr, conn, i, spec, rng):
                                else 'sftp')
     elif kind not in ('tcp', 'rforward'):
         ctx['next_srv'].append((spec['srv'], spec.get('window')))
+    elif kind == 'tcp':
+        ctx.setdefault('next_tcp', []).append(spec['srv'])
     data = 'x' * 50
     big = 'y' * 70000
 
@@ -485,6 +533,22 @@ async def _client_channel(ctx, tr, conn, i, spec, rng):
             reader, writer = r, w
         elif kind == 'process':
             kw = {'window': spec['window']} if spec.get('window') else {}
+            if spec.get('stdin_redirect'):
+                # more than the stalling peer's window, from a pipe / a file
+                rfd, wfd = os.pipe()
+                ctx.setdefault('fds', []).append(wfd)
+                if spec['stdin_redirect'] == 'pipe':
+                    os.write(wfd, b'p' * 60000)
+                    kw['stdin'] = rfd
+                else:
+                    os.close(rfd)
+                    import tempfile
+                    f = tempfile.TemporaryFile(
+                        dir=os.environ.get('VF_TMP'))
+                    f.write(b'f' * 60000)
+                    f.seek(0)
+                    ctx.setdefault('files', []).append(f)
+                    kw['stdin'] = f
             proc = await tr.call(f'create_process{i}', opener(
                 conn.create_process(f'c{i}', **kw)))
             chan = proc.channel
@@ -546,8 +610,11 @@ def _run_once(case, cut, mon, viol, record_trace=None):
     rng = random.Random(case['cseed'])
     out = {}
 
+    held = {'fds': [], 'files': []}
+
     async def main(loop):
-        ctx = {'log': apps.EventLog(), 'ssessions': [], 'csessions': [],
+        ctx = {'fds': held['fds'], 'files': held['files'],
+               'log': apps.EventLog(), 'ssessions': [], 'csessions': [],
                'tcpsessions': [], 'next_srv': [], 'gate': asyncio.Event(),
                'gated': 0}
         owners = {}
@@ -866,6 +933,17 @@ def _run_once(case, cut, mon, viol, record_trace=None):
         scen.run(main)
     except vloop.QuiescentHang as exc:
         viol.append({'mechanism': 'hang', 'detail': f'{exc}; cut={cut}'})
+    finally:
+        for fd in held['fds']:
+            try:
+                os.close(fd)
+            except OSError:
+                pass
+        for f in held['files']:
+            try:
+                f.close()
+            except (OSError, ValueError):
+                pass
     return out
 
 
